@@ -423,6 +423,12 @@ def window_class(r, w, exp):
     return "clipped_on_%d_sides" % clipped
 
 
+def ext_sample(ctx, H, W, r, w, lab, exp):
+    ctx._ext_sampled = True   # one extraction sample per worker, so the other kinds show up in the evidence too
+    return {"kind": "extraction", "shape": [H, W], "region": list(r), "window": list(w),
+            "marked_window": lab[w[0]:w[1], w[2]:w[3]].astype(int).tolist(), "expected_region": None if exp is None else list(exp)}
+
+
 def run_ext(ctx, u):
     aa, lu = ctx.aa, ctx.lu
     H, W = u["H"], u["W"]
@@ -463,9 +469,7 @@ def run_ext(ctx, u):
                           got=lambda: {k: as_tuple(getattr(le, k)) for k in SLOTS})
             wc = window_class(r, w, exp)
             ctx.case("ext", H, W, r, w, nontrivial=(w != whole), cls=[wc] + rcls,
-                     sample=None if not wc.startswith("clipped") else lambda: {"kind": "extraction", "shape": [H, W], "region": list(r), "window": list(w),
-                                     "marked_window": labs[r][w[0]:w[1], w[2]:w[3]].astype(int).tolist(),
-                                     "expected_region": None if exp is None else list(exp)})
+                     sample=None if (not wc.startswith("clipped") or getattr(ctx, "_ext_sampled", False)) else lambda: ext_sample(ctx, H, W, r, w, labs[r], exp))
 
 
 # ------------------------------------------------------------------------------ sub-regions
